@@ -65,7 +65,7 @@ func genC18(t *rapid.T) bson.D {
 	if rapid.Bool().Draw(t, "zerowrite") {
 		writes = append(writes, int32(0))
 	}
-	life := rapid.SampledFrom([]string{"plain", "plain", "tracked", "tracked", "abort", "delete", "trackedDelete", "trackedDelete2", "trackedDeleteUnclaimed"}).Draw(t, "life")
+	life := rapid.SampledFrom([]string{"plain", "plain", "tracked", "tracked", "abort", "delete", "trackedDelete", "trackedDelete2", "trackedDeleteUnclaimed", "stream", "streamFail", "streamFailTracked"}).Draw(t, "life")
 	// the bucket's default chunk size; when it differs from the upload's the
 	// upload overrides it with its own option
 	bucketChunk := c
@@ -93,6 +93,10 @@ func genC18(t *rapid.T) bson.D {
 			reads = append(reads, bson.D{{Key: "seek", Value: int32(rapid.IntRange(-L-3, L+3).Draw(t, "so"))}, {Key: "whence", Value: int32(rapid.IntRange(0, 2).Draw(t, "wh"))}})
 		default:
 			reads = append(reads, bson.D{{Key: "skip", Value: int32(rapid.IntRange(-c-1, 2*c+1).Draw(t, "sk"))}})
+		}
+		if rapid.Bool().Draw(t, "nopos") {
+			last := reads[len(reads)-1].(bson.D)
+			reads[len(reads)-1] = append(last, bson.E{Key: "nopos", Value: true})
 		}
 	}
 	return bson.D{{Key: "chunk", Value: int32(c)}, {Key: "bucketChunk", Value: int32(bucketChunk)}, {Key: "buffer", Value: int32(b)}, {Key: "length", Value: int32(L)}, {Key: "seed", Value: int32(rapid.IntRange(1, 1000).Draw(t, "seed"))},
@@ -150,16 +154,49 @@ func runC18(c bson.D, x *Ctx) (err error) {
 	lungo.VerifUploadBuffer.Store(int64(buf))
 	defer lungo.VerifUploadBuffer.Store(0)
 	id := "file-1"
-	us, e := bucket.OpenUploadStreamWithID(ctx, id, "f", uopts...)
-	if e != nil {
-		return fmt.Errorf("OpenUploadStream failed: %v", e)
-	}
 	chunksColl := db.Collection("fs.chunks")
 	filesColl := db.Collection("fs.files")
 	markersColl := db.Collection("fs.markers")
 	countOf := func(coll lungo.ICollection, filter bson.D) int64 {
 		n, _ := coll.CountDocuments(ctx, filter)
 		return n
+	}
+	if strings.HasPrefix(life, "streamFail") {
+		// the source reader fails part-way: the upload is abandoned and
+		// nothing of it stays behind
+		if life == "streamFailTracked" {
+			bucket.EnableTracking()
+		}
+		failAt := asI(getD(c, "abortAt")) * L / (len(writes) + 1)
+		rd := &failingReader{data: data[:failAt], step: cs + 1}
+		if e := bucket.UploadFromStreamWithID(ctx, id, "f", rd, uopts...); e == nil {
+			return fmt.Errorf("UploadFromStreamWithID succeeded although the source reader failed after %d bytes", failAt)
+		}
+		if n := countOf(chunksColl, bson.D{}) + countOf(filesColl, bson.D{}) + countOf(markersColl, bson.D{}); n != 0 {
+			return fmt.Errorf("an upload whose source reader failed after %d of %d bytes left %d documents (file / chunks / markers) behind", failAt, L, n)
+		}
+		x.Class("life:" + life)
+		if failAt > buf {
+			x.Class("reader-failed-after-a-flush")
+			x.NonTrivial()
+		}
+		return nil
+	}
+	if life == "stream" {
+		// the one-call upload from a reader that hands out odd-sized pieces
+		if e := bucket.UploadFromStreamWithID(ctx, id, "f", &failingReader{data: data, step: cs + 1, noFail: true}, uopts...); e != nil {
+			return fmt.Errorf("UploadFromStreamWithID failed: %v", e)
+		}
+	}
+	var us *lungo.UploadStream
+	if life != "stream" {
+		var e error
+		us, e = bucket.OpenUploadStreamWithID(ctx, id, "f", uopts...)
+		if e != nil {
+			return fmt.Errorf("OpenUploadStream failed: %v", e)
+		}
+	} else {
+		writes = nil
 	}
 	off := 0
 	aborted := false
@@ -259,11 +296,13 @@ func runC18(c bson.D, x *Ctx) (err error) {
 		x.NonTrivial()
 		return nil
 	}
-	if off != L {
-		return fmt.Errorf("harness: wrote %d of %d bytes", off, L)
-	}
-	if e := us.Close(); e != nil {
-		return fmt.Errorf("Close failed: %v", e)
+	if life != "stream" {
+		if off != L {
+			return fmt.Errorf("harness: wrote %d of %d bytes", off, L)
+		}
+		if e := us.Close(); e != nil {
+			return fmt.Errorf("Close failed: %v", e)
+		}
 	}
 	if life == "trackedDeleteUnclaimed" {
 		// a finished upload that is never claimed is deleted: nothing remains
@@ -380,11 +419,14 @@ func runC18(c bson.D, x *Ctx) (err error) {
 				return fmt.Errorf("read step %d: Skip(%d) = %d,%v; an in-memory reader gives %d,%v", i, o, p1, e1, p2, e2)
 			}
 		}
-		// positions agree after every step
-		p1, e1 := ds.Seek(0, io.SeekCurrent)
-		p2, _ := rd.Seek(0, io.SeekCurrent)
-		if e1 != nil || p1 != p2 {
-			return fmt.Errorf("after read step %d the stream position is %d (%v), the in-memory reader is at %d", i, p1, e1, p2)
+		// positions agree (asked after some of the steps only: asking is a
+		// successful seek and would hide what a rejected one left behind)
+		if getD(sd, "nopos") == nil {
+			p1, e1 := ds.Seek(0, io.SeekCurrent)
+			p2, _ := rd.Seek(0, io.SeekCurrent)
+			if e1 != nil || p1 != p2 {
+				return fmt.Errorf("after read step %d the stream position is %d (%v), the in-memory reader is at %d", i, p1, e1, p2)
+			}
 		}
 	}
 	_ = ds.Close()
@@ -437,3 +479,31 @@ func runC18(c bson.D, x *Ctx) (err error) {
 var propC18 = Register(&Prop{ID: "C18", Sub: "gridfs", Gen: genC18, Run: runC18})
 
 func TestProp_C18_gridfs(t *testing.T) { propC18.Check(t) }
+
+// failingReader hands out data in pieces of step bytes and then fails (or
+// ends, with noFail).
+type failingReader struct {
+	data   []byte
+	pos    int
+	step   int
+	noFail bool
+}
+
+func (r *failingReader) Read(p []byte) (int, error) {
+	if r.pos >= len(r.data) {
+		if r.noFail {
+			return 0, io.EOF
+		}
+		return 0, fmt.Errorf("injected reader failure")
+	}
+	n := r.step
+	if n > len(p) {
+		n = len(p)
+	}
+	if n > len(r.data)-r.pos {
+		n = len(r.data) - r.pos
+	}
+	copy(p, r.data[r.pos:r.pos+n])
+	r.pos += n
+	return n, nil
+}
